@@ -3685,6 +3685,9 @@ void SoPlexBase<R>::clearLPRational()
 {
    assert(_rationalLP != nullptr);
 
+   if(intParam(SoPlexBase<R>::SYNCMODE) == SYNCMODE_ONLYREAL)
+      return;
+
    _rationalLP->clear();
    _rationalLUSolver.clear();
    _rowTypes.clear();
